@@ -36,6 +36,10 @@ func (p FallbackPattern) Bind(ctx context.Context, local Scope, value Value) (co
 }
 
 func (p FallbackPattern) String() string {
+	if p.pattern == nil {
+		// a hole in a sparse array pattern
+		return ""
+	}
 	if p.fallback == nil {
 		return p.pattern.String()
 	}
